@@ -59,8 +59,9 @@ theorem readExt_bound {v : Nat} {d r : Bytes} {x : Nat} (hwf : d.wf)
       · simp [h1, h2, h3] at h
 
 /-- option numbers grow by at most 65804 per option, and every option takes at least a byte -/
-theorem decodeOptsF_num_bound : ∀ (fuel cur : Nat) (data : Bytes) (opts : List Opt) (pl : Bytes),
-    data.wf → decodeOptsF fuel cur data = some (opts, pl) →
+theorem decodeOptsF_num_bound (sig : Bool) :
+    ∀ (fuel cur : Nat) (data : Bytes) (opts : List Opt) (pl : Bytes),
+    data.wf → decodeOptsF sig fuel cur data = some (opts, pl) →
     ∀ o ∈ opts, o.num ≤ cur + 65804 * data.length := by
   intro fuel
   induction fuel with
@@ -94,11 +95,11 @@ theorem decodeOptsF_num_bound : ∀ (fuel cur : Nat) (data : Bytes) (opts : List
             by_cases hlen : r2.length < len
             · simp [hlen] at h
             · simp only [hlen, ↓reduceIte] at h
-              cases hv : decodeVal (cur + delta) (r2.take len) with
+              cases hv : decodeValFor sig (cur + delta) (r2.take len) with
               | none => simp [hv] at h
               | some v =>
                 simp only [hv] at h
-                cases hrec : decodeOptsF fuel (cur + delta) (r2.drop len) with
+                cases hrec : decodeOptsF sig fuel (cur + delta) (r2.drop len) with
                 | none => simp [hrec] at h
                 | some p3 =>
                   obtain ⟨os, pl'⟩ := p3
@@ -133,14 +134,14 @@ theorem decodeMessage_num_bound {data : Bytes} {m : Msg} (hwf : data.wf)
       | none => simp [hc] at h
       | some code =>
         simp only [hc] at h
-        cases ho : decodeOpts (data.drop (to + tkl)) with
+        cases ho : decodeOpts (decide (code ≥ 224)) (data.drop (to + tkl)) with
         | none => simp [ho] at h
         | some p =>
           obtain ⟨opts, pl⟩ := p
           simp only [ho, Option.some.injEq] at h
           subst h
           intro o hmem
-          have := decodeOptsF_num_bound _ 0 _ opts pl (Bytes.wf_drop _ hwf) ho o hmem
+          have := decodeOptsF_num_bound _ _ 0 _ opts pl (Bytes.wf_drop _ hwf) ho o hmem
           have hdl : (data.drop (to + tkl)).length ≤ data.length := by
             simp only [List.length_drop]; omega
           have h2 : 65804 * (data.drop (to + tkl)).length ≤ 65804 * data.length :=
